@@ -1,1 +1,43 @@
-// harness bodies for h2 src/frame/util.rs (compiled in-crate as `verif_h`, feature "verif")
+// harness bodies for h2 src/frame/util.rs
+use super::*;
+
+static PADBUF: [u8; 12] = [0; 12];
+
+/// C12.pad: `strip_padding` for every payload length <= 12 and every pad-length octet.
+/// (content other than the first octet is irrelevant to the function: it only
+/// reads payload[0]; the first octet is made symbolic through a copied buffer.)
+pub fn c12_pad_strip_padding() {
+    let n: usize = kani::any();
+    kani::assume(n <= 12);
+    let pad: u8 = kani::any();
+    let mut raw = [0u8; 12];
+    raw[0] = pad;
+    let mut i = 1;
+    while i < 12 {
+        raw[i] = i as u8; // position markers
+        i += 1;
+    }
+    let mut payload = crate::frame::verif_h::sym_bytes(raw, n);
+    let r = strip_padding(&mut payload);
+    match &r {
+        Ok(p) => {
+            let p = *p;
+            assert!(n >= 1 && (pad as usize) < n, "padding >= payload accepted");
+            assert!(p == pad);
+            assert!(payload.len() == n - 1 - pad as usize, "stripped length");
+            let mut i = 0;
+            while i < payload.len() {
+                assert!(payload[i] == (i + 1) as u8, "stripped payload is not bytes [1, len-pad)");
+                i += 1;
+            }
+        }
+        Err(e) => {
+            assert!(n == 0 || pad as usize >= n, "legal padding rejected");
+            assert!(*e == Error::TooMuchPadding);
+        }
+    }
+    kani::cover!(r.is_ok() && pad > 0, "ok_padded");
+    kani::cover!(r.is_err() && n > 0, "too_much");
+    kani::cover!(true, "end");
+    std::mem::forget(payload);
+}
